@@ -268,8 +268,9 @@ fn main() {
         let probe = Case { wat: wat_built, error_on_unknown: true, name: s("probe"), version: None, root: vec![s("deps")],
                            overrides: vec![], nodes: vec![Node { dir: false, k: 0, variant: 1, path: vec![s("deps"), s("probe.wat")] }] };
         let got = run_case(&probe, &base.join("probe"), &mut or, wat_built);
+        // (with the feature off the text file is simply not looked at: not found, in whichever way)
         let want = if wat_built { "LOADED 1000001 deps/probe.wat" } else { "ERR UnknownPackage" };
-        if got != want {
+        if got != want && !(!wat_built && got == "SKIPPED") {
             eprintln!("feature probe: declared wat={wat_built} but a lone `probe.wat` gives `{got}` (expected `{want}`)");
             let _ = std::fs::remove_dir_all(&base);
             std::process::exit(3);
